@@ -12,13 +12,13 @@
        no_comment_tokens o = true,   r_final (html_tokenize SData o) = SData,
    and every output byte that originates from an untrusted leaf is consumed by the tokenizer in
    position class PText, PRcdata _ or PAttrValue _ _ (Qdq | Qsq).
-   This statement is NOT proved, and is false of the unchanged code (findings D1, D13, D41, D42, see
+   This statement is NOT proved, and is false of the unchanged code (findings D1, D13, D41, D42, D43, see
    props/C01_findings.v and findings/C01.json): it needs a simulation between the escaper's context
    and the tokenizer's state over STATIC template text, which the escaper knowingly does not have
    (tag names stop at an underscore, CR is not a tag-end separator, raw-text elements other than
    script and style are treated as ordinary elements, the comment opener inside a script element is
-   not tracked, DOCTYPE declarations are passed through as text, a template's output context is
-   memoised wrongly when it is called twice).  It is DECIDED on the real engine's outputs by the oracle
+   not tracked, DOCTYPE declarations are passed through as text, a tag name is taken to end where its
+   text node ends, a template's output context is memoised wrongly when it is called twice).  It is DECIDED on the real engine's outputs by the oracle
    same_structure / no_comments / ends_in_data / placement_ok of spec/StructureSpec.v, whose meaning
    is fixed by C01_oracle_meaning below, on every generated (template, environment pair).
 
@@ -29,7 +29,7 @@
    without changing state and without emitting a token (C01_action_preserves_tokenizer,
    C01_action_between_static): such a value can never open or close a tag, an attribute, a comment,
    an RCDATA / raw-text element or the fragment. *)
-From V Require Import lib.Base model.TContext model.TSanitize model.TSanitizers
+From V Require Import lib.Base model.TContext model.TSanitize model.TSanitizers model.TTree model.TEscapeText model.TEscaper
      spec.HtmlSpec spec.HtmlTok spec.StructureSpec proofs.HtmlTokFacts proofs.StructureFacts.
 Local Open Scope N_scope.
 
@@ -93,6 +93,36 @@ Theorem C01_action_between_static : forall c chain v o (st1 st2 : bytes) init,
   t_state t2 = t_state t1 /\ t_toks t2 = t_toks t1.
 Proof. exact action_between_static. Qed.
 Print Assumptions C01_action_between_static.
+
+(* a first step of the static-text simulation (layer 2), for all element and attribute names of the
+   regenerated policy tables and both quote characters: after the static text  <E A=q  the engine is in
+   the attribute value context (E, A, that delimiter) and the tokenizer specification is in the matching
+   quoted attribute value state of a start tag E with current attribute A *)
+Theorem C01_alignment_open_attribute : forall q e a,
+  q = 34 \/ q = 39 -> In e policy_elems -> In a policy_attrs ->
+  (exists c edited out,
+     escape_text false ctx0 (open_attr_text q e a) = EOk c edited out /\
+     c_state c = StAttr /\ c_delim c = (if q =? 34 then DDoubleQuote else DSingleQuote) /\
+     c_elem c = e /\ c_attr c = a) /\
+  (let t := tok_run (tok_init SData) (open_attr_text q e a) in
+   t_state t = (if q =? 34 then SAttrValueDQ else SAttrValueSQ) /\
+   g_is_end (t_tag t) = false /\ g_name (t_tag t) = e /\ g_aname (t_tag t) = a).
+Proof. exact align_open_attr_policy. Qed.
+Print Assumptions C01_alignment_open_attribute.
+
+(* The whole-template statement (see the header; spec/StructureSpec.v, section "the whole-template
+   statement" for accepted, path_list, run_path, ctl_equiv).  It is NOT a theorem: it is refuted for
+   the faithful model in props/C01_findings.v (C01_structure_refuted) and decided on the real engine's
+   outputs by the oracle. *)
+Definition C01_structure_full_statement : Prop :=
+  forall (trees : list (bytes * tree)) (name : bytes) (e : escaper) (root : tree) (segs : list seg)
+         (vs vs' : list value) (o o' : bytes),
+    accepted trees name e ->
+    find_template (ns_of_trees trees) e name = Some (Some root) ->
+    path_list (ns_of_trees trees) e name root segs ->
+    ctl_equiv vs vs' ->
+    run_path segs vs = Some o -> run_path segs vs' = Some o' ->
+    skel o = skel o' /\ no_comment_tokens o = true /\ r_final (html_tokenize SData o) = SData.
 
 (* the boolean oracle evaluated on the implementation's outputs decides exactly the conjunction of
    the whole-template statement's clauses *)
